@@ -336,7 +336,15 @@ def run(ctx):
     # 4. random / mutated strings
     ctx.stage('random')
     n = 3000 if ctx.quick else 60000
-    rs = sorted(set(random_strings(ctx, n, formulas)))
+    rs = set(random_strings(ctx, n, formulas))
+    # error literals in other letter cases: not error codes for the tokenizer (which may refuse them) - but whatever it does, it must
+    # not answer with the canonical spelling in place of the characters it was given
+    for code in ERRCODES:
+        for var in (code.lower(), code[:2] + code[2:].lower(), code[:-2].lower() + code[-2:], code.swapcase()):
+            if var != code:
+                for ctxt in ("%s", "SUM(%s)", "%s+1", "1+%s", "IF(A1,%s,2)", "{%s}", "%s×A4:A6", "SUM(1,%s)"):
+                    rs.add(ctxt % var)
+    rs = sorted(rs)
     ev, tx = [], []
     for s in rs:
         o, it = run_real(s)
